@@ -21,6 +21,16 @@ CHECKS = {
         ref="3/C01",
         technique="deterministic simulation: seeded fault-injection sweep on the wire, reference-model + ledger oracle",
     ),
+    "C02": dict(
+        level="fault_enumeration",
+        text=("sender -> hostile wire -> recipient simulation; per seeded run the single-fault space of the produced JWE (every "
+              "bit of every decoded segment, protected-header re-spellings, every tag/IV length, non-empty encrypted key, epk "
+              "edits incl. off-curve / small-order / other-curve points, alg/enc relabel, per-recipient edits) is enumerated at "
+              "joserfc's decrypting entry points, plus seeded pairs, all 30 segment splices and key substitution; oracle = "
+              "reference decryptor on the received octets + ledger of what was really encrypted for whom."),
+        ref="3/C02",
+        technique="deterministic simulation: seeded fault-injection sweep on the wire, reference-model + ledger oracle",
+    ),
     "C03": dict(
         level="exploration",
         text=("fault-free control configuration of the C01 world: joserfc issuer -> wire -> joserfc verifier holding only "
@@ -31,6 +41,15 @@ CHECKS = {
         ref="3/C03",
         technique="deterministic simulation (fault-free control run): seeded configuration search with entropy/choice seams, reference-model oracle",
     ),
+    "C04": dict(
+        level="exploration",
+        text=("fault-free control configuration of the C02 world with the entropy seam owned by the simulation (prng mode for "
+              "replay, edge mode feeding all-zero / all-FF / leading-zero CEKs, IVs and salts): seeded search over alg x enc x "
+              "zip x curve x serialisation x 1-4 mixed recipients x plaintext class x aad/apu/apv, any-recipient mode, and the "
+              "combinations the specifications forbid. Weak fit for simulation, stated in DESIGN.md."),
+        ref="3/C04",
+        technique="deterministic simulation (fault-free control run): seeded configuration search with entropy seam (edge values), reference-model oracle",
+    ),
     "C07": dict(
         level="exploration",
         text=("heterogeneous cluster: joserfc nodes and an independent RFC implementation exchange JWS in both directions over "
@@ -38,6 +57,15 @@ CHECKS = {
               "public JWK), plus published RFC example tokens as fixed events. Seeded sampling; refinement against the "
               "reference implementation, no fault or schedule involved (weak fit, stated in DESIGN.md)."),
         ref="3/C07",
+        technique="deterministic simulation with an independent in-process peer (differential interop), seeded search",
+    ),
+    "C08": dict(
+        level="exploration",
+        text=("heterogeneous cluster: joserfc and an independent implementation of RFC 7516/7518 + ECDH-1PU + (X)ChaCha20 "
+              "drafts exchange JWE in both directions (arbitrary protected-header spelling, parameter placement, DEFLATE "
+              "level, apu/apv, aad, multi-recipient), plus published example tokens as fixed events; the peer reports which "
+              "construction step disagrees. Seeded sampling, no fault or schedule (weak fit, stated)."),
+        ref="3/C08",
         technique="deterministic simulation with an independent in-process peer (differential interop), seeded search",
     ),
 }
